@@ -18,7 +18,9 @@ KINDS = ["string", "bool", "int", "int8", "int16", "int32", "int64", "uint", "ui
          "float32", "float64"]
 CK = {"string": "KString", "bool": "KBool", "int": "KInt", "int8": "KInt8", "int16": "KInt16", "int32": "KInt32",
       "int64": "KInt64", "uint": "KUint", "uint8": "KUint8", "uint16": "KUint16", "uint32": "KUint32",
-      "uint64": "KUint64", "float32": "KFloat32", "float64": "KFloat64", "slice": "KOther"}
+      "uint64": "KUint64", "float32": "KFloat32", "float64": "KFloat64", "slice": "KOther", "map": "KOther",
+      "struct": "KOther", "ptr": "KOther", "iface": "KOther", "error": "KOther"}
+UNSUPPORTED = ["slice", "map", "struct", "ptr", "iface"]
 BOUNDS = {"int": (-2 ** 63, 2 ** 63 - 1), "int64": (-2 ** 63, 2 ** 63 - 1), "int8": (-128, 127), "int16": (-32768, 32767),
           "int32": (-2 ** 31, 2 ** 31 - 1), "uint": (0, 2 ** 64 - 1), "uint64": (0, 2 ** 64 - 1), "uint8": (0, 255),
           "uint16": (0, 65535), "uint32": (0, 2 ** 32 - 1)}
@@ -219,6 +221,20 @@ def gen_cases(ck):
                     args.append(pool[rng.randrange(len(pool))] if rng.random() < 0.35 else pool[rng.randrange(min(5, len(pool)))])
                 ret = rng.choice([""] + KINDS)
                 cases.append({"k": "func", "params": list(sig), "ret": ret, "retv": rng.choice(ret_pool(ret)), "args": args})
+    # unsupported parameter / result kinds (struct, map, slice, pointer, interface): a catchable error /
+    # some text, never a crash; mixed with supported parameters (the error must come before the call)
+    for u in UNSUPPORTED:
+        for a in (A, I(1), S("x"), N):
+            cases.append({"k": "func", "params": [u], "ret": "", "retv": None, "args": [a]})
+            cases.append({"k": "func", "params": ["int", u], "ret": "int", "retv": {"i": "1"}, "args": [I(1), a]})
+            cases.append({"k": "func", "params": [u, "string"], "ret": "", "retv": None, "args": [a, S("s")]})
+        cases.append({"k": "func", "params": [], "ret": u, "retv": None, "args": []})
+    cases.append({"k": "func", "params": [], "ret": "error", "retv": None, "args": []})
+    # several results: only the first one is converted (a second `error` result is ignored: not documented)
+    for ret in ("int", "string", "int8", "float32", "uint64"):
+        for ret2 in ("error", "int", "string"):
+            for rv in ret_pool(ret)[:2]:
+                cases.append({"k": "func", "params": ["int"], "ret": ret, "ret2": ret2, "retv": rv, "args": [I(3)]})
     # a 64 KiB string through a string parameter and back
     cases.append({"k": "func", "params": ["string"], "ret": "string", "retv": {"s": BIG}, "args": [S(BIG)]})
     # struct methods
@@ -250,7 +266,7 @@ def main(ck):
         "Go library functions taken as parameters of the model (theorems quantify over them): strconv.ParseFloat, strconv.FormatFloat 'g' 14, fmt %g, float64->float32 conversion; measured per case by calling the library directly",
         "amd64 float64->int64 conversion rule (V.C03.Model.f2i)",
         "harness/cmd/c17 (reflect.MakeFunc-built functions of every signature, struct T, ConvertFromIndex instantiations) and checks/C17.py",
-        "not modelled: struct/slice/map/pointer parameters (reported as unsupported), multiple results and error results (only the first result is converted), ConvertFromIndex for arrays, class instances and string->bool, constructors/properties of reflected classes",
+        "struct/slice/map/pointer/interface parameters are one kind KOther (reported as unsupported); of several results only the first is converted (a second `error` result is dropped — docs/go-integration.md does not describe the reflective registration at all, so this is recorded as behaviour, not judged); not modelled: ConvertFromIndex for arrays, class instances and string->bool, constructors/properties of reflected classes",
     ]
     ok = ck.prove(deps=["C03"])
     binary, out = ck.go_build("c17")
